@@ -80,7 +80,7 @@ ArgToken(a) == IF a.long # <<>> THEN <<45, 45>> \o a.long ELSE IF a.short # <<>>
 FirstWord(t) == LET sp == Find(t, <<32>>) IN IF sp < 0 THEN t ELSE Slice(t, 0, sp)
 UserArg(a) == a.id \notin {"help", "version"}
 MustAppear(c, useLong) ==
-  {[sec |-> IF c.args[i].positional THEN "Arguments" ELSE "Options", tok |-> ArgToken(c.args[i])]
+  {[sec |-> IF c.args[i].heading # "" THEN c.args[i].heading ELSE IF c.args[i].positional THEN "Arguments" ELSE "Options", tok |-> ArgToken(c.args[i])]
       : i \in {j \in 1..Len(c.args) : UserArg(c.args[j]) /\ ShouldShowArg(useLong, c.args[j])}}
   \cup {[sec |-> "Commands", tok |-> ShownSubs(c)[i].name] : i \in 1..Len(ShownSubs(c))}
 \* not listed in the sections of this mode: flag and first help word of every argument the mode does not show
@@ -105,7 +105,7 @@ P12Help(c, useLong, obs) ==
   /\ obs.maxrun <= RunBound(c)
   /\ MustAppear(c, useLong) \subseteq PresentPairs(obs)
   /\ MustNotAppear(c, useLong) \cap PresentToks(obs) = {}
-  /\ \A p \in PresentPairs(obs) : p.sec \in {"Arguments", "Options", "Commands"} => p.tok \notin NotListed(c, useLong)
+  /\ \A p \in PresentPairs(obs) : p.sec \notin {"Top", "Usage"} => p.tok \notin NotListed(c, useLong)
 \* the generated `help` subcommand mirrors the command tree (names and hiddenness only): the mirror of level c lists
 \* c's visible subcommands and never names a hidden one
 MirrorMust(c) == {[sec |-> "Commands", tok |-> c.subs[i].name] : i \in {j \in 1..Len(c.subs) : ~c.subs[j].hide}}
